@@ -28,7 +28,7 @@ BASE_PROFILE = {
     'script_rate': 0.6,       # expected stimulus ops per 10 time units per eligible target
     'ops_w': {'fail': 2, 'shutdown': 1, 'restore': 2, 'work_order': 2, 'block': 1.5, 'unblock': 1.5,
               'add_capacity': 1, 'adjust_budget': 0.7, 'rewire': 0.3, 'rewire_remove': 0.3, 'offset_cycle': 0.7, 'set_cycle': 0.5,
-              'rewire_bad': 0.3},
+              'rewire_bad': 0.3, 'scratch_env': 0.5},
     'p_maintainer': 0.6, 'p_ct_script': 0.2, 'p_value_cb': 0.4, 'p_collect': 0.5,
     'values': [0, 0.5, 1, 1.5, 2.25, 3], 'qualities': [1, 0.5, 0.75, 0.25],
     'p_same_instant': 0.3, 'p_initial_value': 0.0, 'p_poke': 0.0, 'p_trace': 0.0, 'p_scheduler': 0.2,
@@ -450,7 +450,9 @@ class Gen:
                 it['falsy'] = True          # its parts are instances of a Part subclass whose __len__ is 0
             if rng.random() < p['p_batch_source']:
                 it['batch'] = [rng.choice([0, 1, 2, 3, 3, 5, 7]) for _ in range(rng.randint(1, 4))]
-                if rng.random() < 0.35:
+                if rng.random() < 0.3:
+                    it['batch_append'] = True   # batches made empty and filled through Batch.parts
+                elif rng.random() < 0.35:
                     it['batch_sub'] = True      # the generator makes instances of a user-defined subclass of Batch
                 elif rng.random() < p.get('p_nested_batch', 0):
                     it['batch_nested'] = True   # ... or pallets of boxes (a Batch of Batches)
@@ -659,6 +661,8 @@ class Gen:
             elif op == 'set_cycle':
                 e['target'] = rng.choice(cyclers)
                 e['ct'] = rng.choice([0, 0, 0.5, 1, 2, 0.25])
+            elif op == 'scratch_env':
+                e['with_minus_one'] = rng.random() < 0.3
             elif op == 'reprice_waiting':
                 e['delta'] = rng.choice([0.5, 1, -0.25, 2.5, -1])
             elif op == 'late_path':
